@@ -3,6 +3,7 @@ package owa
 import (
 	"github.com/Azbesciak/RealDecisionMaker/lib/model"
 	"github.com/Azbesciak/RealDecisionMaker/lib/utils"
+	"sort"
 )
 
 type OwaBiasListener struct {
@@ -14,8 +15,28 @@ func (h *OwaBiasListener) Identifier() string {
 
 func (h *OwaBiasListener) Merge(params model.MethodParameters, addition model.MethodParameters) model.MethodParameters {
 	oldParams := params.(owaParams)
-	newParams := addition.(owaParams)
+	newParams := additionAsOwaParams(addition)
 	return *oldParams.merge(&newParams)
+}
+
+// OnCriterionAdded reports the new weight as model.WeightType, so Merge has to accept it as well.
+func additionAsOwaParams(addition model.MethodParameters) owaParams {
+	if added, ok := addition.(model.WeightType); ok {
+		ids := make([]string, 0, len(added.Weights))
+		for id := range added.Weights {
+			ids = append(ids, id)
+		}
+		sort.Strings(ids)
+		weights := make(model.WeightedCriteria, len(ids))
+		for i, id := range ids {
+			weights[i] = model.WeightedCriterion{
+				Criterion: model.Criterion{Id: id, Type: model.Gain},
+				Weight:    added.Weights[id],
+			}
+		}
+		return owaParams{Weights: &weights}
+	}
+	return addition.(owaParams)
 }
 
 func (h *OwaBiasListener) OnCriterionAdded(
